@@ -440,18 +440,36 @@ func (w *effWorld) elemFnVals(ctx fvCtx, e ast.Expr, depth int) ([]*effFn, strin
 
 // ---------------------------------------------------------------- closed world by type
 
-// collectMethodValues records the type of every method value / method expression that is used as a value
-// (not immediately called): such a function value has no table entry of its own, so a type it has cannot be
-// resolved by closedWorld.
+// collectMethodValues records the type of every method value / method expression / instantiated generic function
+// that is used as a value (not immediately called): such a function value has no table entry of its own, so a
+// type it has cannot be resolved by closedWorld.
 func (w *effWorld) collectMethodValues(files []*ast.File, info *types.Info) {
 	for _, f := range files {
 		called := map[ast.Expr]bool{}
 		ast.Inspect(f, func(n ast.Node) bool {
 			if c, ok := n.(*ast.CallExpr); ok {
-				called[ast.Unparen(c.Fun)] = true
+				fun := ast.Unparen(c.Fun)
+				called[fun] = true
+				switch ix := fun.(type) { // explicit instantiation f[T](…)
+				case *ast.IndexExpr:
+					fun = ast.Unparen(ix.X)
+				case *ast.IndexListExpr:
+					fun = ast.Unparen(ix.X)
+				}
+				called[fun] = true
+				if se, ok := fun.(*ast.SelectorExpr); ok {
+					called[se.Sel] = true
+				}
 			}
 			return true
 		})
+		for id, inst := range info.Instances {
+			if id.Pos() >= f.Pos() && id.Pos() < f.End() && !called[id] {
+				if _, isSig := inst.Type.(*types.Signature); isSig {
+					w.mvalSigs = append(w.mvalSigs, inst.Type)
+				}
+			}
+		}
 		ast.Inspect(f, func(n ast.Node) bool {
 			se, ok := n.(*ast.SelectorExpr)
 			if !ok || called[se] {
